@@ -643,6 +643,10 @@ func (dr *dirRepo) indexSave(locked bool) error {
 	// force minimal settings on the index
 	dr.index.SchemaVersion = 2
 	dr.index.MediaType = types.MediaTypeOCI1ManifestList
+	if dr.index.Manifests == nil {
+		// the manifests field of an image index is a required array, it must not be written as null
+		dr.index.Manifests = []types.Descriptor{}
+	}
 	fh, err := os.CreateTemp(dr.path, "index.json.*")
 	if err != nil {
 		return err
